@@ -1,4 +1,5 @@
 import XdslProofs.Lemmas.DCETriv
+import XdslProofs.Lemmas.DCEEff
 /-!
 # C13 — property theorems (liveness, deletion, the `dce` pass)
 
@@ -52,6 +53,67 @@ operation with unknown effects always stays -/
 theorem wbd_recursive_unknown {h : Hdr} {rs : T} (hr : h.recursive = true) (hu : effAll rs = none) :
     wbd h rs = false := by
   cases he : h.eff <;> simp [wbd, resultOnlyEffects, opEff, he, hr, hu]
+
+/-- "…operations with possibly observable effects", for an operation with recursive effects: NO
+position inside it is exempt.  `would_be_trivially_dead` accepts it exactly if it is no terminator, no
+symbol operation, its own declared effects are harmless, and EVERY operation directly in a block of
+one of its regions (`directCells`: every region, every block of the region — reached or not —, every
+operation of the block) has known effects (computed the same way, so this descends through nested
+operations with recursive effects) that are all harmless: `READ`, or `ALLOC` of a value defined by
+the operation or inside it. -/
+theorem wbd_recursive_iff {h : Hdr} {rs : T} (hr : h.recursive = true) :
+    wbd h rs = true ↔ h.term = false ∧ h.sym = false ∧
+      (∃ own, h.eff = some own ∧ ∀ e ∈ own, effOk (h.id :: allIds rs) e = true) ∧
+      ∀ c ∈ directCells rs, ∃ ce, opEff c.1 (effAll c.2) = some ce ∧
+        ∀ e ∈ ce, effOk (h.id :: allIds rs) e = true := by
+  have hw : wbd h rs = (!h.term && !h.sym && match h.eff, effAll rs with
+      | some own, some inner => (own ++ inner).all (effOk (h.id :: allIds rs))
+      | _, _ => false) := by
+    cases he : h.eff <;> cases ha : effAll rs <;> simp [wbd, resultOnlyEffects, opEff, hr, he, ha]
+  rw [hw]
+  simp only [Bool.and_eq_true, Bool.not_eq_true']
+  constructor
+  · rintro ⟨⟨ht, hs⟩, hres⟩
+    refine ⟨ht, hs, ?_⟩
+    cases hown : h.eff with
+    | none => simp [hown] at hres
+    | some own =>
+      cases hall : effAll rs with
+      | none => simp [hown, hall] at hres
+      | some inner =>
+        simp only [hown, hall, List.all_eq_true] at hres
+        refine ⟨⟨own, rfl, fun e he => hres e (List.mem_append_left _ he)⟩, ?_⟩
+        intro c hc
+        obtain ⟨ce, h1, h2⟩ := effAll_some_children rs inner hall c hc
+        exact ⟨ce, h1, fun e he => hres e (List.mem_append_right _ (h2 e he))⟩
+  · rintro ⟨ht, hs, ⟨own, hown, hok⟩, hch⟩
+    refine ⟨⟨ht, hs⟩, ?_⟩
+    cases hall : effAll rs with
+    | none =>
+      obtain ⟨c, hc, hn⟩ := (effAll_none_iff rs).mp hall
+      obtain ⟨ce, h1, _⟩ := hch c hc
+      rw [hn] at h1; cases h1
+    | some inner =>
+      simp only [hown, List.all_eq_true]
+      intro e he
+      rcases List.mem_append.mp he with he | he
+      · exact hok e he
+      · obtain ⟨c, hc, ce, h1, h2⟩ := effAll_some_origin rs inner hall e he
+        obtain ⟨ce', h1', h2'⟩ := hch c hc
+        rw [h1] at h1'; cases h1'
+        exact h2' e h2
+
+/-- read from the other side: one operation with an unknown or observable effect — in whichever
+region, block and position — keeps the enclosing operation with recursive effects -/
+theorem wbd_recursive_child_observable {h : Hdr} {rs : T} (hr : h.recursive = true) {c : Hdr × T}
+    (hc : c ∈ directCells rs)
+    (hobs : ∀ ce, opEff c.1 (effAll c.2) = some ce → ∃ e ∈ ce, effOk (h.id :: allIds rs) e = false) :
+    wbd h rs = false := by
+  cases hw : wbd h rs
+  · rfl
+  · obtain ⟨ce, h1, h2⟩ := ((wbd_recursive_iff hr).mp hw).2.2.2 c hc
+    obtain ⟨e, he, hf⟩ := hobs ce h1
+    rw [h2 e he] at hf; cases hf
 
 /-! ## the liveness loop -/
 
@@ -282,6 +344,23 @@ example : dce (.region (.block (.op (hPure 0 []) .nil (.op (hRec 1 [])
 example : (dce (.region (.block (.op (hPure 0 []) .nil (.op (hRec 1 [])
       (.region (.block (.op (hWrite 2 [0]) .nil (.op (hYield 3 []) .nil .nil)) .nil) .nil)
       (.op (hTerm 4 [] []) .nil .nil))) .nil) .nil)).2 = (1, true) := by decide
+
+private def hRead (i : Nat) (us : List Nat) : Hdr := ⟨i, us, false, false, some [.read], false, []⟩
+
+/-- `rec { read; yield }, { write; yield }` (an `scf.if` whose then-region loads and whose else-region
+stores) is not would-be-trivially-dead; with two loading regions it is -/
+example : wbd (hRec 0 []) (.region (.block (.op (hRead 1 []) .nil (.op (hYield 2 []) .nil .nil)) .nil)
+      (.region (.block (.op (hWrite 3 []) .nil (.op (hYield 4 []) .nil .nil)) .nil) .nil)) = false := by decide
+example : wbd (hRec 0 []) (.region (.block (.op (hRead 1 []) .nil (.op (hYield 2 []) .nil .nil)) .nil)
+      (.region (.block (.op (hRead 3 []) .nil (.op (hYield 4 []) .nil .nil)) .nil) .nil)) = true := by decide
+
+/-- the write in the second block of the third region, below a nested `rec` whose first region reads -/
+example : wbd (hRec 0 []) (.region (.block (.op (hRead 1 []) .nil (.op (hYield 2 []) .nil .nil)) .nil)
+      (.region (.block (.op (hYield 3 []) .nil .nil) .nil)
+      (.region (.block (.op (hYield 4 []) .nil .nil) (.block (.op (hRec 5 [])
+        (.region (.block (.op (hRead 6 []) .nil (.op (hYield 7 []) .nil .nil)) .nil)
+        (.region (.block (.op (hWrite 8 []) .nil (.op (hYield 9 []) .nil .nil)) .nil) .nil))
+        (.op (hYield 10 []) .nil .nil)) .nil)) .nil))) = false := by decide
 
 /-- dead use cycle `%0 = pure(%1); %1 = pure(%0)`, an unreachable block `^1` (with a write) that
 branches to the reachable `^2`: the cycle and `^1` go, the successor of the entry terminator is renamed -/
